@@ -207,7 +207,7 @@ rec!("Matrix2", Matrix2, [f32, f64, i32, i64], { x: [Vector2], y: [Vector2] });
 rec!("Matrix3", Matrix3, [f32, f64, i32, i64], { x: [Vector3], y: [Vector3], z: [Vector3] });
 rec!("Matrix4", Matrix4, [f32, f64, i32, i64], { x: [Vector4], y: [Vector4], z: [Vector4], w: [Vector4] });
 rec!("Quaternion", Quaternion, [f32, f64, i32, i64], { v: [Vector3], s: [] });
-rec!("Euler", Euler, [Rad<f32>, Rad<f64>, Deg<f32>, Deg<f64>, f32, f64], { x: [], y: [], z: [] });
+rec!("Euler", Euler, [Rad<f32>, Rad<f64>, Deg<f32>, Deg<f64>], { x: [], y: [], z: [] });
 rec!("PerspectiveFov", PerspectiveFov, [f32, f64], { fovy: [Rad], aspect: [], near: [], far: [] });
 rec!("Perspective", Perspective, [f32, f64], { left: [], right: [], bottom: [], top: [], near: [], far: [] });
 rec!("Ortho", Ortho, [f32, f64], { left: [], right: [], bottom: [], top: [], near: [], far: [] });
@@ -358,4 +358,10 @@ decomposed!(
     [Vector3<i32>, Quaternion<i32>, i32],
     [Vector3<f64>, Matrix3<f64>, f64],
     [Vector3<f32>, Euler<Rad<f32>>, f32],
+    [Vector3<i64>, Quaternion<i64>, i64],
+    [Vector3<u64>, Vector3<u64>, u64],
+    [Vector2<u8>, Vector2<u8>, u8],
+    [Vector3<i16>, Point3<i16>, i16],
+    [Vector3<f64>, Quaternion<f32>, f64],
+    [Vector4<f32>, Matrix3<f64>, f32],
 );
